@@ -24,12 +24,14 @@ CONSTANTS Indices,        \* possible checkpoint indices, e.g. {3, 7, 12}
 
 \* ---------------------------------------------------------------- (a) helper
 VARIABLES flowFiles, rodFiles, forcingFiles, bodyTime, result
-TimeOf(i) == 10 * i
+TimeOf(i) == 10000 * i
 Max(S) == CHOOSE m \in S : \A x \in S : x <= m
 Min(S) == CHOOSE m \in S : \A x \in S : x >= m
 
 HInit == /\ flowFiles \in SUBSET Indices /\ rodFiles \in SUBSET Indices /\ forcingFiles \in SUBSET Indices
-         /\ bodyTime \in {TimeOf(i) : i \in Indices} \cup {1}
+         \* the body time is one of the checkpoint times, a far-off value, or a checkpoint time off by one unit in the last place
+         \* (times are scaled by 1000 in this model: TimeOf(i) + 1 is "equal up to a relative 1e-5", still a disagreement)
+         /\ bodyTime \in {TimeOf(i) : i \in Indices} \cup {1} \cup {TimeOf(i) + 1 : i \in Indices}
          /\ result = [kind |-> "pending", t |-> 0]
 Chosen == IF PickRule = "largest" THEN Max(flowFiles) ELSE Min(flowFiles)
 HelperRun == /\ result.kind = "pending"
